@@ -75,6 +75,10 @@ class C01(PropBase):
                 txns = common.gen_journal(rng, cfg, {"p_invalid": 1.0, "fault": kind, "n_txns": rng.choice([1, 1, 2, 3]),
                                                       "p_price": 0.3, "p_opening": 0.2})
                 out.append(self.mk(rng, cfg, txns, "fault:" + kind))
+        # explicit amounts whose running sum leaves the 96-bit range (checked arithmetic: the transaction must be
+        # rejected, never accepted with an unchecked or ignored sum); both signs, with and without fraction digits
+        for _ in range(30 if tier == "quick" else 400):
+            out.append(self.mk(rng, {}, [self.overflow_txn(rng)], "overflow-explicit"))
         for i in range(n):
             cfg = {}
             big = rng.random() < 0.1
@@ -83,6 +87,26 @@ class C01(PropBase):
             txns = common.gen_journal(rng, cfg, opts)
             out.append(self.mk(rng, cfg, txns, "big" if big else "random"))
         return out
+
+    def overflow_txn(self, rng):
+        M = 2 ** 96 - 1
+        sc = rng.choice([0, 0, 1, 3])
+        sgn = rng.choice([1, -1])
+
+        def txt(v):
+            s = str(abs(v)).rjust(sc + 1, "0")
+            return ("-" if v < 0 else "") + (s if sc == 0 else s[:-sc] + "." + s[-sc:])
+        first = sgn * (M - rng.randrange(0, 3))
+        second = sgn * rng.randrange(1, 10)
+        rest = rng.choice([[-sgn * rng.randrange(1, 10)], [-first, -second], [-sgn * rng.randrange(1, 10), -sgn * 2]])
+        vals = [first, second] + rest
+        if rng.random() < 0.3:
+            vals = [second, first] + rest
+        comm = rng.choice(["", "EUR"])
+        unit = {"comm": comm, "opening": None, "closing": None} if comm else None
+        return {"ts": {"ns": str(1704067200 * 10 ** 9), "off": 0, "text": "2024-01-01T00:00:00Z"}, "code": None, "desc": None,
+                "uuid": None, "loc": None, "tags": None, "comments": None, "last": None,
+                "posts": [{"acct": "o:%s" % "abcdef"[i], "amount": txt(v), "unit": unit, "comment": None} for i, v in enumerate(vals)]}
 
     def mk(self, rng, cfg, txns, kind):
         layout = common.gen_layout(rng)
@@ -137,7 +161,9 @@ class C01(PropBase):
                 if p["comm"] == p["txn_comm"] and D(p["amount"]) != D(p["txn_amount"]):
                     return {"sig": "own-commodity-value", "what": "posting in the transaction commodity valued differently from its amount", "txn": t}
             if total != 0:
-                if not sum_chain_exact([p["txn_amount"] for p in posts]):
+                # F17 is silent *rounding*: each rounded addition is off by at most half a unit, so the exact sum of a
+                # transaction accepted because of it is smaller than the number of postings; anything larger is not F17
+                if not sum_chain_exact([p["txn_amount"] for p in posts]) and abs(total) < len(posts):
                     return {"sig": "F17:inexact-arithmetic", "what": "accepted transaction sums to %s (a partial sum is not representable, rust_decimal rounded silently)" % total, "txn": t}
                 return {"sig": "nonzero-sum", "what": "accepted transaction sums to %s" % total, "txn": t}
         # relation to the written journal (exact domain only): closing prices and the implicit posting
